@@ -14,17 +14,29 @@ const maxInlineDepth = 6
 
 func (fr *Frame) locals(x *Exec, st *State) map[string]Val {
 	m := map[string]Val{}
-	for k, v := range fr.named {
-		m[k] = v
-	}
-	for k, p := range fr.namedAddr {
-		if pt, ok := p.T.Underlying().(*types.Pointer); ok {
-			m[k] = x.loadVal(st, p, pt.Elem())
+	// source-level names: the latest definition that dominates the current block
+	for name, defs := range fr.namedDefs {
+		for i := len(defs) - 1; i >= 0; i-- {
+			d := defs[i]
+			if fr.curBlock == nil || d.block == fr.curBlock || d.block.Dominates(fr.curBlock) {
+				if d.isAddr {
+					if pt, ok := d.val.T.Underlying().(*types.Pointer); ok {
+						m[name] = x.loadVal(st, d.val, pt.Elem())
+					}
+				} else {
+					m[name] = d.val
+				}
+				break
+			}
 		}
 	}
 	for v, val := range fr.vals {
 		if phi, ok := v.(*ssa.Phi); ok && phi.Comment != "" {
-			m[phi.Comment] = val
+			if fr.curBlock == nil || phi.Block() == fr.curBlock || phi.Block().Dominates(fr.curBlock) {
+				if _, have := m[phi.Comment]; !have || phi.Block() == fr.curBlock {
+					m[phi.Comment] = val
+				}
+			}
 		}
 	}
 	return m
@@ -60,6 +72,16 @@ func (x *Exec) doCallVals(fr *Frame, st *State, call *ssa.CallCommon, instr ssa.
 			}
 		}
 		it := call.Value.Type()
+		if x.prog.lookupTypeContract("iface", it, "."+call.Method.Name()) == nil {
+			if impl := x.prog.singleImpl(it); impl != nil {
+				if f := x.prog.ssa.LookupMethod(impl, call.Method.Pkg(), call.Method.Name()); f != nil {
+					x.trusted["devirtualized:"+qualifiedTypeName(it)+"="+types.TypeString(impl, nil)] = true
+					x.smt.Assert(implies(and(st.pc, not(eq(recv.L[0], "inil"))), eq(app("ityp", recv.L[0]), x.typeID(impl))))
+					pv := x.ifacePayload(st, recv, impl)
+					return x.callStatic(fr, st, f, append([]Val{pv}, args...), nil, instr, isGo)
+				}
+			}
+		}
 		key := "iface:" + qualifiedTypeName(it) + "." + call.Method.Name()
 		if ctr := x.prog.lookupTypeContract("iface", it, "."+call.Method.Name()); ctr != nil {
 			return x.applyContract(fr, st, ctr, sig, append([]Val{recv}, args...), recvName(ctr, "self"), instr, isGo, key)
@@ -139,6 +161,11 @@ func (x *Exec) callStatic(fr *Frame, st *State, fn *ssa.Function, args []Val, bi
 }
 
 func (x *Exec) useContract(ctr *Contract, isGo bool) bool {
+	for _, c := range ctr.Clauses {
+		if c.Kind == "inline" && !isGo {
+			return false
+		}
+	}
 	for _, c := range ctr.Clauses {
 		switch c.Kind {
 		case "requires", "ensures", "assigns", "noreturn", "pure", "ghostset":
@@ -268,6 +295,31 @@ func (x *Exec) inline(fr *Frame, st *State, fn *ssa.Function, args []Val, binds 
 	x.inlined[fn.String()] = true
 	nf := x.newFrame(fn, fr)
 	nf.ctr = x.prog.contractFor(fn)
+	if nf.ctr != nil {
+		env := x.bindFormals(nf.ctr, fn.Signature, args, fn)
+		for i, fv := range fn.FreeVars {
+			if i < len(binds) {
+				env[fv.Name()] = binds[i]
+			}
+		}
+		for _, cl := range nf.ctr.Clauses {
+			if cl.Kind != "requires" || cl.Spawn {
+				continue
+			}
+			sc := &specCtx{x: x, pkg: x.calleePkg(nf.ctr, fn), env: env, st: st, old: st}
+			g := sc.node(cl.Expr)
+			if len(g.L) != 1 {
+				continue
+			}
+			lbl := cl.Label
+			if lbl == "" {
+				lbl = fmt.Sprintf("%d", clauseOrdinal(nf.ctr, cl))
+			}
+			name := x.siteName(fmt.Sprintf("%s/call.%s.requires.%s@%s", x.prog.relName(x.topFn), shortKey(nf.ctr.Key), lbl, x.srcText(instr)))
+			x.oblige(st, "call.requires", name, cl.Tags, instr.Pos(), g.L[0])
+			x.smt.Assert(implies(st.pc, g.L[0]))
+		}
+	}
 	for i, p := range fn.Params {
 		if i < len(args) {
 			v := args[i]
@@ -332,7 +384,7 @@ func (x *Exec) inline(fr *Frame, st *State, fn *ssa.Function, args []Val, binds 
 
 func (x *Exec) newFrame(fn *ssa.Function, parent *Frame) *Frame {
 	f := &Frame{fn: fn, vals: map[ssa.Value]Val{}, params: map[string]Val{}, extras: map[ssa.Value][]Val{},
-		rangeOf: map[*ssa.Range]Val{}, static: map[string]Val{}, named: map[string]Val{}, namedAddr: map[string]Val{}, parent: parent}
+		rangeOf: map[*ssa.Range]Val{}, static: map[string]Val{}, named: map[string]Val{}, namedAddr: map[string]Val{}, namedDefs: map[string][]namedDef{}, parent: parent}
 	if parent != nil {
 		f.depth = parent.depth + 1
 	}
